@@ -1646,9 +1646,6 @@ pub fn run_layer5(s: &mut Sink, eng: Eng, g: &mut u64) {
 // different lengths); the compiled program must track the interpreter run on a fresh VM
 
 pub fn run_layer6(s: &mut Sink, eng: Eng, g: &mut u64) {
-    if eng == Eng::Interp {
-        return;
-    }
     let idx = *g;
     *g += 1;
     if !s.take(idx) {
@@ -1658,7 +1655,9 @@ pub fn run_layer6(s: &mut Sink, eng: Eng, g: &mut u64) {
     s.mark(idx, &format!("{}/reuse", eng.name()), &rp0);
     run_group(s, eng, "reuse", &rp0, move |cs| {
         l6_check(cs, eng);
-        l6_side_effects(cs, eng);
+        if eng != Eng::Interp {
+            l6_side_effects(cs, eng);
+        }
     });
     s.done("layer 6: successive executions on one VM object; helper side effects on the packet; helper re-binding");
 }
@@ -1666,7 +1665,9 @@ pub fn run_layer6(s: &mut Sink, eng: Eng, g: &mut u64) {
 fn l6_check(s: &mut Sink, eng: Eng) {
     // r0 = (packet length << 8) | last packet byte, read through the context of each VM kind
     let fixed = VmKind::Fixed(0x40, 0x50);
-    for kind in [fixed, VmKind::Raw, VmKind::Mbuff] {
+    // `clobber`: having computed its result, the program overwrites the two pointer slots (and a third
+    // slot) of the fixed VM's buffer: the next execution must find fresh pointers there all the same
+    for (kind, clobber) in [(fixed, false), (VmKind::Raw, false), (VmKind::Mbuff, false), (fixed, true), (VmKind::Fixed(0, 8), true)] {
         let prog: Vec<I> = match kind {
             VmKind::Fixed(a, b) => vec![
                 isa::ldxdw(2, 1, a as i16), isa::ldxdw(3, 1, b as i16), isa::mov64r(0, 3), I::new(0x1f, 0, 2, 0, 0), I::new(0x67, 0, 0, 0, 8),
@@ -1678,6 +1679,16 @@ fn l6_check(s: &mut Sink, eng: Eng) {
         let prog: Vec<I> = if matches!(kind, VmKind::Raw) { vec![isa::ldxb(6, 1, 7), I::new(0x30, 0, 0, 0, 5), I::new(0x67, 0, 0, 0, 8), I::new(0x4f, 0, 6, 0, 0), isa::EXIT] }
                            else if matches!(kind, VmKind::Mbuff) { vec![isa::ldxb(6, 1, 3), I::new(0x30, 0, 0, 0, 2), I::new(0x67, 0, 0, 0, 8), I::new(0x4f, 0, 6, 0, 0), isa::EXIT] }
                            else { prog };
+        let prog: Vec<I> = if let (VmKind::Fixed(a, b), true) = (kind, clobber) {
+            let mut p = prog[..prog.len() - 1].to_vec();
+            p.push(isa::stdw(1, a as i16, 0x11));
+            p.push(isa::stdw(1, b as i16, 0x22));
+            p.push(isa::stw(1, (a.max(b) + 4) as i16, 0x33));
+            p.push(isa::EXIT);
+            p
+        } else {
+            prog
+        };
         let bytes = isa::enc(&prog);
         // the packet alphabet: (buffer, start offset inside it, length)
         let alpha: [(usize, usize, usize); 5] = [(0, 0, 8), (0, 0, 16), (0, 0, 24), (1, 0, 16), (0, 8, 16)];
@@ -1836,7 +1847,9 @@ pub fn replay_l5(v: &Value) -> Vec<String> {
     let mut s = Sink::new("replay", Tier::Quick, 0, 1, None, None, 3600);
     run_group(&mut s, eng, "reuse", &v.clone(), move |cs| {
         l6_check(cs, eng);
-        l6_side_effects(cs, eng);
+        if eng != Eng::Interp {
+            l6_side_effects(cs, eng);
+        }
     });
     let r = s.finish();
     r["violations"].as_array().unwrap().iter().map(|x| format!("{}: {}", x["sig"].as_str().unwrap(), x["detail"].as_str().unwrap())).collect()
